@@ -355,8 +355,8 @@ def units(tier, seed):
         out.append(Unit('C13/' + name, 'symx.props.c13', func, kw, oo))
 
     rng = random.Random(1234 + seed)
-    shapes = [(3,), (2, 3), (3, 2, 2)]
-    n_idx = 50 if tier == 'quick' else 600
+    shapes = [(3,), (2, 3), (3, 2, 2)] if tier == 'quick' else [(3,), (2, 3), (3, 2, 2), (4,), (3, 3), (2, 2, 2, 2)]
+    n_idx = 50 if tier == 'quick' else 2500
     D, P = (2, 2)
     for shp in shapes:
         seen = set()
